@@ -551,7 +551,11 @@ def r07_6(ctx):
 
 
 def rules(ctx):
-    return [r07_1, r07_2, r07_3, r07_4, r07_6]
+    out = [r07_1, r07_2, r07_3, r07_4, r07_6]
+    if ctx.tier == "thorough":
+        from . import controls
+        out.append(controls.control_rule([("R07.1", r07_1, ["jsx_empty", "jsx_conversion"])]))
+    return out
 
 
 EXPLANATION = (
